@@ -125,6 +125,7 @@ def scale_leg(ctx):
 
 
 def run(ctx):
+    tlc.apalache_inductive(ctx, "P (tail cache in windows)")
     ctx.notes["rule"] = ("behaviours = (taps, B, real/complex) x sequences of cached / stateless channelize calls and "
                          "cache resets on two interleaved filterbank objects generated by TLC with exact integer "
                          "spectra; numeric leg = all/sampled compositions of 6 windows for realistic (taps, B, window); "
